@@ -9,4 +9,8 @@ rsync -a --delete --exclude target /repo/ "$copy"/
 # builds of the (patched) copy must not share a target dir with builds of the real /repo: cargo
 # compares mtimes, and the real files are older than artifacts built from the patched copy
 export VERIF_TARGET_DIR=/verif/target-ns
+# ... and rsync puts the old mtimes back on files the previous run had patched and restored, so
+# cargo would take the artifact built from the *patched* file for fresh: forget what was built
+# from the crux crates (they rebuild in a minute)
+find "$VERIF_TARGET_DIR" -path '*/.fingerprint/crux_*' -prune -exec rm -rf {} + 2>/dev/null || true
 exec unshare -m sh -c 'mount --bind "$0" /repo && shift 0 && exec "$@"' "$copy" "$@"
